@@ -201,6 +201,182 @@ def c16(prop, tier, seed):
                    VEC_ASSUME + ["single-file faults only: deletion of the current record, truncation of it at one byte offset per behaviour"])
 
 
+# ----------------------------------------------------------------------------------------------
+# rawdb: spec/RawDb.tla  (C01 C02 C13r)
+# ----------------------------------------------------------------------------------------------
+RAW_DESIGN_INVS = ["TypeOK", "RefEq", "MustOk", "Partition"]
+ALL_WK = ["append", "at0", "atend", "tw0", "tw1", "oob"]
+
+
+def raw_cfg(names, P, sizes, floor, initlen, maxfile, depth, ops, wkinds, dev, invs, emit, histk=0):
+    st = lambda xs: "{" + ", ".join('"%s"' % x for x in xs) + "}"
+    lines = ["SPECIFICATION Spec", "CONSTANTS", f"  Names = {st(names)}", f"  P = {P}",
+             "  Sizes = {" + ", ".join(map(str, sizes)) + "}", f"  Floor = {floor}", f"  InitLen = {initlen}",
+             f"  MaxFile = {maxfile}", f"  Depth = {depth}", f"  Dev = {st(sorted(dev))}", f"  Ops = {st(ops)}",
+             f"  WKinds = {st(wkinds)}", f"  HistK = {histk}",
+             "VIEW HView", "CONSTRAINT DepthOK", "CHECK_DEADLOCK FALSE"]
+    lines += [f"INVARIANT {i}" for i in invs]
+    if emit:
+        lines.append("INVARIANT Emit")
+    return "\n".join(lines) + "\n"
+
+
+def raw_run(prop, tier, seed, plan, interesting, assumptions):
+    """plan items: dict(names,P,sizes,initlen,maxfile,depth,ops,wkinds,histk,scales=[bytes per cell])"""
+    known_ids = vlib.all_known_devs()
+    raw_devs = sorted(known_ids & {"D1", "D15"})
+    tot_states = tot_trans = behaviours = steps = nontrivial = cut = 0
+    alloc_checked = alloc_equal = 0
+    violations, known_seen, samples, runs, pathcov = [], {}, [], [], {}
+    for item in plan:
+        wd = vlib.scratch_dir("raw")
+        try:
+            P = item.get("P", 2)
+            floor = (1 << 20) // (4096 // P)          # the production growth floor (1 MiB) in cells at exact scale
+            base = (item["names"], P, item["sizes"], floor, item.get("initlen", 0), item["maxfile"], item["depth"], item["ops"],
+                    item.get("wkinds", ALL_WK))
+            with cf.ThreadPoolExecutor(2) as ex:
+                fd = ex.submit(vlib.run_tlc, "MCRawDb", raw_cfg(*base, [], RAW_DESIGN_INVS, False), os.path.join(wd, "design"), 6,
+                               item.get("timeout", 1500))
+                fa = ex.submit(vlib.run_tlc, "MCRawDb", raw_cfg(*base, raw_devs, ["TypeOK"], True, item.get("histk", 0)),
+                               os.path.join(wd, "asis"), 6, item.get("timeout", 1500))
+                d, a = fd.result(), fa.result()
+            if d["violated"]:
+                raise ToolError("the intended-design model (Dev={}) violates its own invariant: %s ; ops=%s"
+                                % (d["violated"], vlib.trace_ops(d["err_trace"])))
+            if a["violated"]:
+                raise ToolError("as-is model run failed: %s %s" % (a["violated"], a["err_trace"][:5]))
+            if a["distinct"] == 0 or d["distinct"] == 0:
+                raise ToolError("TLC explored nothing: " + "\n".join(a["tail"][-10:]))
+            tot_states += d["distinct"] + a["distinct"]
+            tot_trans += d["generated"] + a["generated"]
+            paths = vlib.maximal_paths(a["emitted"]["REPLAY"])
+            if not samples and paths:
+                longest = max(paths, key=len)
+                samples.append({"ops": ["%s(%s)" % (s["op"], ",".join(map(str, s["args"]))) for s in longest],
+                                "final_expected": longest[-1]["exp"], "final_alloc": longest[-1]["alloc"]})
+            nshards = max(1, min(8, len(paths) // 1000))
+            shard_files = []
+            for si in range(nshards):
+                sf = os.path.join(wd, f"paths.{si}.ndjson")
+                vlib.write_ndjson(sf, paths[si::nshards])
+                shard_files.append(sf)
+            with cf.ThreadPoolExecutor(14) as ex:
+                futs = {}
+                for sc in item["scales"]:
+                    for si, sf in enumerate(shard_files):
+                        futs[ex.submit(vlib.run_vh, ["rawreplay", "--in", sf, "--scale", str(sc), "--p", str(P),
+                                                    "--init-len", str(item.get("initlen", 0))])] = (sc, si)
+                for fu in cf.as_completed(futs):
+                    sc, si = futs[fu]
+                    r = fu.result()
+                    behaviours += r["behaviours"]; steps += r["steps"]; nontrivial += r["distinct_nontrivial"]
+                    cut += r["cut_permitted"]; alloc_checked += r["alloc_checked"]; alloc_equal += r["alloc_equal"]
+                    for k, v in r["paths"].items():
+                        pathcov[k] = pathcov.get(k, 0) + v
+                    for k in r["known"]:
+                        e = known_seen.setdefault(k["dev"], {"count": 0, "history": k["history"]})
+                        e["count"] += k["count"]
+                        if len(k["history"]) < len(e["history"]):
+                            e["history"] = k["history"]
+                    for v in r["violations"]:
+                        v.update({"property": prop, "tier": tier, "seed": seed, "kind": "behaviour", "spec": "RawDb", "scale": sc, "P": P,
+                                  "initlen": item.get("initlen", 0),
+                                  "steps_full": paths[si::nshards][v["behaviour"]][: v["step"] + 1]})
+                        violations.append(v)
+            runs.append({k: item[k] for k in ("names", "sizes", "maxfile", "depth", "ops")} |
+                        {"wkinds": item.get("wkinds", ALL_WK), "HistK": item.get("histk", 0), "initlen": item.get("initlen", 0),
+                         "scales": item["scales"], "design_states": d["distinct"], "asis_states": a["distinct"], "paths": len(paths)})
+        finally:
+            shutil.rmtree(wd, ignore_errors=True)
+    known_lines = []
+    for dev, e in sorted(known_seen.items()):
+        if dev in known_ids:
+            known_lines.append("%s %s" % (dev, " ".join(e["history"])))
+        else:
+            violations.append({"property": prop, "kind": "unlisted-deviation", "dev": dev, "history": e["history"]})
+    cov = {"states": tot_states, "transitions": tot_trans, "traces_validated_against_impl": behaviours, "samples": samples,
+           "evaluations": steps, "distinct_nontrivial": nontrivial,
+           "rule": "behaviours = maximal BFS-tree paths emitted by TLC for every distinct state of the bounded model, replayed on a real "
+                   "Database at each scale (bytes per model cell; 2048 = exact scale where the allocator state is compared too); "
+                   "distinct counts (scale, behaviour) pairs; " + interesting,
+           "exhaustive": True, "runs": runs, "placement_paths": pathcov, "deviations_taken": {k: v["count"] for k, v in known_seen.items()},
+           "cut_after_permitted_divergence": cut, "allocator_state_compared": alloc_checked, "allocator_state_equal": alloc_equal,
+           "checker_cmd": "tlc -config <generated> MCRawDb.tla ; vh rawreplay"}
+    return {"level": "model_checking", "coverage": cov, "assumptions": assumptions, "violations": violations, "known": known_lines}
+
+
+RAW_ASSUME = ["TLC exhaustiveness is within the stated constants (names, sizes, depth, MaxFile) only",
+              "one model cell = `scale` bytes filled with a (value, position) pattern; at scale 2048 (P=2) the model page is the real 4 KiB page",
+              "extent invariants (C02) are evaluated on the real layout maps (pending holes and reservations through the cfg(anydb_verif) accessors)"]
+ALL_RAW_OPS = ["create", "write", "truncate", "rename", "remove", "hold", "flush", "rflush", "compact", "reopen"]
+
+
+def raw_plan(tier):
+    return [
+        # every operation and write kind, two names
+        dict(names=["a", "b"], sizes=[1, 3, 5], maxfile=24, depth=q(tier, 5, 6), ops=ALL_RAW_OPS, histk=q(tier, 1, 2),
+             scales=[2048] + q(tier, [1000], [1, 1000, 4097])),
+        # allocation focus: three names, growth / relocation / removal / hole reuse / reopen
+        dict(names=["a", "b", "c"], sizes=[3, 5], maxfile=40, depth=q(tier, 6, 8), ops=["create", "write", "remove", "flush", "reopen"],
+             wkinds=["append"], histk=q(tier, 0, 1), scales=[2048] + q(tier, [], [4097])),
+        # initial file sizes (open_with_min_len below / above one page, unaligned)
+        dict(names=["a", "b"], sizes=[3], maxfile=24, depth=q(tier, 4, 6), ops=["create", "write", "remove", "flush", "reopen"],
+             wkinds=["append"], initlen=1, scales=[2048]),
+        dict(names=["a", "b"], sizes=[3], maxfile=24, depth=q(tier, 4, 6), ops=["create", "write", "remove", "flush", "reopen"],
+             wkinds=["append"], initlen=5, scales=[2048]),
+    ]
+
+
+@register("C01")
+def c01(prop, tier, seed):
+    return raw_run(prop, tier, seed, raw_plan(tier),
+                   "non-trivial = length >= 3 containing a relocation, an adjacent-hole growth or a reopen", RAW_ASSUME)
+
+
+@register("C02")
+def c02(prop, tier, seed):
+    return raw_run(prop, tier, seed, raw_plan(tier),
+                   "non-trivial = length >= 3 containing a relocation, an adjacent-hole growth or a reopen", RAW_ASSUME)
+
+
+def merge(results):
+    out = results[0]
+    for r in results[1:]:
+        for k in ("states", "transitions", "traces_validated_against_impl", "evaluations", "distinct_nontrivial"):
+            out["coverage"][k] += r["coverage"][k]
+        out["coverage"]["samples"] += r["coverage"]["samples"]
+        out["coverage"]["runs"] += r["coverage"]["runs"]
+        out["coverage"]["rule"] += " || " + r["coverage"]["rule"]
+        for k, v in r["coverage"].get("deviations_taken", {}).items():
+            out["coverage"]["deviations_taken"][k] = out["coverage"]["deviations_taken"].get(k, 0) + v
+        out["violations"] += r["violations"]
+        out["known"] += [k for k in r["known"] if k not in out["known"]]
+        out["assumptions"] += [a for a in r["assumptions"] if a not in out["assumptions"]]
+    return out
+
+
+@register("C13")
+def c13(prop, tier, seed):
+    # every refusal in the alphabet, in every state: rawdb (write beyond end, truncate beyond length, rename onto an
+    # existing name, remove of a referenced region) and vecdb (update beyond end, checked push at a wrong index,
+    # rollback without a usable record); the continuation after each refusal is part of the behaviour
+    raw = raw_run(prop, tier, seed, [
+        dict(names=["a", "b"], sizes=[1, 5], maxfile=24, depth=q(tier, 5, 6),
+             ops=["create", "write", "truncate", "rename", "remove", "hold", "flush", "reopen"],
+             wkinds=["append", "oob", "tw1"], histk=q(tier, 1, 2), scales=[2048]),
+    ], "non-trivial = length >= 3 containing a relocation, an adjacent-hole growth or a reopen", RAW_ASSUME)
+    vec = vec_run(prop, tier, seed, [
+        dict(kind="raw", K=1, PP=2, MaxLen=2, MaxStamp=2, Depth=q(tier, 6, 7), histk=q(tier, 2, 3),
+             ops=["push", "cpush", "truncate", "update", "delete", "commit", "rollback", "rollback_before", "fault", "reimport"],
+             replays=[("bytes", "u32", 1), ("zerocopy", "u32", 1)]),
+        dict(kind="cmp", K=1, PP=2, MaxLen=3, MaxStamp=2, Depth=q(tier, 6, 7), histk=q(tier, 2, 3),
+             ops=["push", "cpush", "truncate", "commit", "rollback", "rollback_before", "fault", "reimport"],
+             replays=[("pco", "u32", 1), ("lz4", "u32", 1), ("zstd", "u32", 1)]),
+    ], "non-trivial = length >= 3 and at least one further operation after a refusal-prone call (rollback, re-import)", VEC_ASSUME)
+    return merge([raw, vec])
+
+
 def replay(prop, path):
     v = json.load(open(path))
     if v.get("spec") == "Vec" and v.get("steps_full"):
@@ -210,6 +386,20 @@ def replay(prop, path):
             vlib.write_ndjson(nd, [v["steps_full"]])
             r = vlib.run_vh(["vecreplay", "--in", nd, "--format", v["format"], "--type", v["type"], "--k", str(v["K"]),
                              "--block", str(v["block"])])
+        finally:
+            shutil.rmtree(wd, ignore_errors=True)
+        if r["violations"]:
+            print(json.dumps(r["violations"][0], indent=1))
+            print(f"VIOLATION property={prop} replay={path}")
+            return 1
+        print("replay: no violation")
+        return 0
+    if v.get("spec") == "RawDb" and v.get("steps_full"):
+        wd = vlib.scratch_dir("replay")
+        try:
+            nd = os.path.join(wd, "one.ndjson")
+            vlib.write_ndjson(nd, [v["steps_full"]])
+            r = vlib.run_vh(["rawreplay", "--in", nd, "--scale", str(v["scale"]), "--p", str(v["P"]), "--init-len", str(v.get("initlen", 0))])
         finally:
             shutil.rmtree(wd, ignore_errors=True)
         if r["violations"]:
